@@ -532,6 +532,19 @@ func c17EvalBytes(c *Ctx, cs Case) {
 		c.Fail(Failure{Kind: "property", What: "Efivarfs.GetLoaderEntrySelected decodes the value differently than Efistring.Unmarshal decodes the same bytes", Case: cs, Go: objObs, Spec: obs})
 	}
 	nullStringOracle(c, cs, b)
+	// util.ReadNullString itself: the code TRANSLATED from it (Gen.lean; theorems C17g_readNullString*) against the
+	// real function on a reader over the same bytes: the bytes returned and how many the reader has left
+	{
+		r := bytes.NewReader(append([]byte{}, b...))
+		var got []byte
+		goObs := ""
+		if pan, _ := safely(func() { got = util.ReadNullString(r) }); pan {
+			goObs = "panic"
+		} else {
+			goObs = fmt.Sprintf("%s rest=%d", hx(got), r.Len())
+		}
+		c.GenTieGo(cs, "util.ReadNullString", goObs, "gen.readnull", hx(b))
+	}
 }
 
 func c17Eval(c *Ctx, cs Case) {
